@@ -24,6 +24,11 @@ def run(ctx):
            make_jobs(ctx, "smr", ["dhp_k4"], S.DHP_LONG[1:], strat=[("pct", 20 if ctx.quick() else 400, 0)], extra_of=lambda v: ["--max-steps", "3000000"])
     # a full retired block (256) of objects that are all guarded by another thread when the retiring thread detaches (below, at, above, 2 blocks)
     jobs += make_jobs(ctx, "smr", ["dhp_k4"], ["holdn:%d,signal,await:2|await:1,retpool,detach,signal" % n for n in (255, 256, 257, 512)], strat=[("pct", 6 if ctx.quick() else 60, 0)], extra_of=lambda v: ["--max-steps", "3000000"])
+    # a detached thread's record with guarded retired objects is adopted by a detaching thread's help_scan while a thread WITHOUT a record attaches
+    # (op noattach) and retires at once (seeded change C03b: the adopted record released before its retired pointers were copied)
+    ADOPT = ["prot:0:0,signal,await:3,deref:0|await:1,swap:0,detach,signal|await:2,detach,signal|noattach,await:2,attach,retn:2,detach",
+             "prot:0:0,prot:1:1,signal,await:3,deref:0,deref:1|await:1,swap:0,swap:1,detach,signal|await:2,retn:1,detach,signal|noattach,await:2,attach,retn:3,detach"]
+    jobs += make_jobs(ctx, "smr", ["hp_inplace_k2", "hp_classic_k2", "hp_inplace_k2_r16", "dhp_k4"], ADOPT, strat=[("random", 600 if ctx.quick() else 8000, 0), ("pct", 300 if ctx.quick() else 4000, 0)])
     # a thread detaches with < 256 surviving retired objects in a two-block array, its record is reused and filled up again with guarded objects
     jobs += make_jobs(ctx, "smr", ["dhp_k4"], ["holdn:300,signal,await:2,relsome:100,signal,await:4,holdn:100,signal,await:6|await:1,retpool,signal,await:3,detach,attach,signal,await:5,retpool,signal"],
                       strat=[("pct", 4 if ctx.quick() else 40, 0)], extra_of=lambda v: ["--max-steps", "3000000"])
